@@ -148,6 +148,8 @@ def oracle(c, sp, o):
     g = m['spec']
     if 'PANIC' in o:
         return 'panic', 'panic: ' + o['PANIC'][:200]
+    if m.get('no_oracle') or o.get('auth') == '-':
+        return None      # configuration with UID entries that are not 16 bytes / InitState refused it: model comparison only
     accepted_auth = o['auth'] == 'ok'
     disp = o['disp']
     unmodified = m['sealed_intact']
@@ -252,7 +254,7 @@ def build_cases(ctx, packets, specs):
                                     changed=sorted(changed)[:8] if changed else None, expect_drop=expect_drop, forged=forged)))
 
     SEALED = {n: sealed_positions(specs[n]['kind'], p) for n, p in packets.items() if specs[n]['kind'] != 'seal'}
-    oks = {(g['kind'], g['browser']): n for n, g in specs.items() if n.endswith('_ok') and g['kind'] != 'seal'}
+    oks = {(g['kind'], g['browser']): n for n, g in specs.items() if n.endswith('_ok') and g['kind'] != 'seal' and not n.startswith('cfg_')}
     # 0. forged: small-order ephemeral values (every one, every non-canonical encoding, both transports), payload sealed
     #    under a key the sender chose.  Not encrypted to the server's static public key => ordinary web traffic.
     for (kind, br), name in sorted(oks.items()):
@@ -309,7 +311,7 @@ def build_cases(ctx, packets, specs):
                 add('clock-subsecond', name, packets[name], now=(NOW_S + edge) * 10**9 + d)
     # 4. authorisation / configuration variants, both transports
     for name, g in sorted(specs.items()):
-        if name.endswith('_ok') or g['kind'] == 'seal':
+        if name.endswith('_ok') or g['kind'] == 'seal' or name.startswith('cfg_'):
             continue
         v = name.split('_', 2)[2]
         pkt = packets[name]
@@ -331,6 +333,19 @@ def build_cases(ctx, packets, specs):
         add('auth/nobook', name, packets[name], st='S_nobook')
         add('auth/pristine', name, packets[name])
         add('auth/pristine@void', name, packets[name], st='S_void')
+    # 6. the configuration layer: State built by the real InitState (c07_init_test.go) from a RawConfig
+    anyok = packets[sorted(oks.values())[0]]
+    for cfg, probes in config_specs():
+        gocfg = {k: cfg[k] for k in ('book', 'bypass', 'admin', 'pk', 'redir', 'db', 'users', 'keepalive', 'cnc', 'hosts')}
+        ostate = cfg_oracle_state(cfg)
+        mine = sorted(n for n, g in specs.items() if g.get('cfgname') == cfg['name'])
+        for n in mine or [None]:
+            g = specs[n] if n else dict(BASE, kind='tls', pv=None)
+            pkt = packets[n] if n else anyok
+            cases.append(dict(id='c%d' % len(cases), st='S0', now=NOW, kind=g['kind'], pkt=pkt.hex(), cfg=gocfg,
+                              meta=dict(cat='config/%s%s' % (cfg['name'], '' if n else '/init-only'), base=n or 'init-only', spec=g, sealed_intact=True,
+                                        pristine=bool(n) and cfg['wf'], changed=None, expect_drop=False, forged=None, cfg=cfg, ostate=ostate,
+                                        no_oracle=not cfg['wf'] or not n)))
     # 5. parser quirks the model reproduces (Go slice capacity, map overwrite): rebuilt extension blocks
     for (kind, br), name in sorted(oks.items()):
         if kind != 'tls':
@@ -401,6 +416,8 @@ def parse_go(line):
     o = dict(t.split('=', 1) for t in parts[0].split() if '=' in t)
     tb = dict(t.split('=', 1) for t in parts[1].split() if '=' in t) if len(parts) > 1 else {}
     tb2 = dict(t.split('=', 1) for t in parts[2].split() if '=' in t) if len(parts) > 2 else {}
+    if len(parts) > 3:
+        o['_init'] = dict(t.split('=', 1) for t in parts[3].split() if '=' in t)
     return o, tb, tb2
 
 
@@ -418,8 +435,14 @@ def model_line(c, sp, tb, tb2, x25519=False):
         d = c['pkt'][:2 * n]
         if d != c['pkt'] or 'hid' not in tb:
             hid.append('%s:%s' % (d or '-', tb2['hid']))
+    st_tok = c9.state_tokens(sp)
+    if c.get('cfg'):
+        cfg = c['meta']['cfg']
+        dbonly = [t for t in c9.state_tokens(dict(pv='00', users=cfg['users'])).split() if t.startswith('db=')][0]
+        ini = (c['meta'].get('_init') or {})
+        st_tok = '%s %s rres=%s ares=%s' % (cfg_tokens(cfg), dbonly, ini.get('rres', '-'), ini.get('ares', '-'))
     return '%s now=%s kind=%s pkt=%s %s dh=%s hid=%s%s' % (
-        c['id'], c9.zhex(c['now']), c['kind'], c['pkt'] or '-', c9.state_tokens(sp), ','.join(dh) or '-', ','.join(hid) or '-',
+        c['id'], c9.zhex(c['now']), c['kind'], c['pkt'] or '-', st_tok, ','.join(dh) or '-', ','.join(hid) or '-',
         ' x25519=1' if x25519 else '')
 
 
@@ -441,6 +464,22 @@ def compare(o, ml):
     toks = ml.split()
     if len(toks) > 1 and toks[1] in ('MISS', 'FAIL'):
         return 'model: ' + ml[:200]
+    if '_init' in o:
+        # what InitState derived from the RawConfig vs Model/ServerInit.v
+        gi = o['_init']
+        mi = dict(t.split('=', 1) for t in toks[1:] if '=' in t)
+        if gi.get('init') != mi.get('init'):
+            return 'InitState: model %s, implementation %s' % (mi.get('init'), gi.get('init'))
+        if gi.get('init') != 'ok':
+            return None
+        for k, what in (('adm', 'AdminUID'), ('byp', 'bypass set (State.BypassUID keys)'), ('mgr', 'user manager'), ('ka', 'KeepAlive of the proxy dialer (ns)'),
+                        ('ipv', 'StaticPv'), ('rhost', 'redirect host'), ('rport', 'redirect port')):
+            if gi.get(k) != mi.get(k):
+                return 'InitState %s: model %s, implementation %s' % (what, mi.get(k), gi.get(k))
+        gb = sorted(set(x.split(':')[0] for x in gi.get('ibook', '-').split(',') if x != '-'))
+        mb = sorted(set(x for x in mi.get('ibook', '-').split(',') if x != '-'))
+        if gb != mb:
+            return 'InitState ProxyBook keys: model %s, implementation %s' % (mb, gb)
     auth, ci, disp, dec = norm_model(ml)
     if auth != o['auth']:
         return 'AuthFirstPacket: model %s, implementation %s' % (auth, o['auth'])
@@ -455,13 +494,15 @@ def compare(o, ml):
 
 def run_cases(ctx, cases, tag, x_sample=0):
     lines = [json.dumps(sp) for sp in STATES.values()] + [json.dumps({k: v for k, v in c.items() if k != 'meta'}) for c in cases]
-    rc, log, impl, dt = c9.run_go(ctx, 'run', lines, tag, test='TestVerifC07', files=('c07_test.go', 'c09_rig_test.go', 'c09_test.go'),
+    rc, log, impl, dt = c9.run_go(ctx, 'run', lines, tag, test='TestVerifC07', files=('c07_test.go', 'c07_init_test.go', 'c09_rig_test.go', 'c09_test.go'),
                                   timeout=3000)
     parsed = {}
     mlines = []
     for c in cases:
         o, tb, tb2 = parse_go(impl.get(c['id']))
         parsed[c['id']] = o
+        if o is not None and '_init' in o:
+            c['meta']['_init'] = o['_init']
         if o is not None and 'auth' in o:
             mlines.append(model_line(c, STATES[c['st']], tb, tb2))
     xl = []
@@ -477,7 +518,7 @@ def run_cases(ctx, cases, tag, x_sample=0):
             m = c['meta']
             if m.get('forged') and parsed.get(c['id']) and 'auth' in parsed[c['id']] and m['spec']['keyname'] == 'zero' and m['spec']['plaintext'] == 'bypass':
                 fpool.setdefault(m['spec']['point'], c)
-        want = sorted(fpool) if not ctx.quick() else [n for n in ('zero', 'order8a', 'order8b|bit255', 'p-1', 'p+1+p') if n in fpool]
+        want = sorted(fpool) if not ctx.quick() else [n for n in ('zero', 'order8a', 'order8b|bit255', 'p+1+p') if n in fpool]
         pick += [fpool[n] for n in want]
         for c in pick:
             o, tb, tb2 = parse_go(impl.get(c['id']))
@@ -516,11 +557,104 @@ def forge_specs():
     return out
 
 
+# ------------------------------------------------------------------------------------------ configuration layer
+# The State is built by the REAL InitState from a RawConfig.  UIDs: Z = all-zero, A = admin, B1/B2 = bypass entries,
+# N* = one bit off, DBU = a database user.
+ZERO, CA, CB1, CB2, CDB = '00' * 16, 'a1' * 16, 'b1' * 16, 'b2' * 16, 'db' * 16
+CPK = '5c' * 32
+
+
+def flip(uid, bit):
+    b = bytearray(bytes.fromhex(uid)); b[bit // 8] ^= 1 << (bit % 8); return b.hex()
+
+
+BOOK0 = {'shadowsocks': ['tcp', '127.0.0.1:8388'], 'openvpn': ['udp', '127.0.0.1:1194']}
+CFG_USERS = [user(CDB)]
+
+
+def mkcfg(name, **kw):
+    c = dict(name=name, book=dict(BOOK0), bypass=[], admin='', pk=CPK, redir='127.0.0.1', db=False, users=[], keepalive=0, cnc=False,
+             hosts=['127.0.0.1'], wf=True)
+    c.update(kw)
+    return c
+
+
+def config_specs():
+    """(config, probes): probes = list of (uid, sid, method); every config is also run through InitState alone"""
+    std = lambda *uids: [(u, 3, 'shadowsocks') for u in uids]
+    out = [
+        (mkcfg('none'), std(ZERO, CB1, flip(ZERO, 0), flip(ZERO, 127))),
+        (mkcfg('bypass1', bypass=[CB1]), std(ZERO, CB1, flip(CB1, 0), flip(CB1, 127), CB2)),
+        (mkcfg('bypass-dup', bypass=[CB1, CB2, CB1]), std(ZERO, CB1, CB2, flip(CB2, 64))),
+        (mkcfg('admin-only', admin=CA), std(ZERO, CA, flip(CA, 5), CB1) + [(CA, 0, 'shadowsocks'), (CA, 0, 'nosuchmethod'), (ZERO, 0, 'shadowsocks')]),
+        (mkcfg('admin+bypass', admin=CA, bypass=[CB1, CA, CB2]), std(ZERO, CA, CB1, CB2, flip(CB1, 1)) + [(CA, 0, 'openvpn')]),
+        (mkcfg('admin+db', admin=CA, db=True, users=CFG_USERS, bypass=[CB1]), std(ZERO, CDB, flip(CDB, 0), CB1, CA)),
+        (mkcfg('admin-nodbpath', admin=CA, users=CFG_USERS), std(CDB, CA, ZERO)),
+        (mkcfg('noadmin+dbpath', db=True, users=CFG_USERS, bypass=[CB2]), std(CDB, CB2, ZERO)),       # Voidmanager: the file is ignored
+        # the served methods: names are lower-cased, the network is matched case-insensitively, other networks are skipped
+        (mkcfg('book-case', bypass=[CB1], book={'ShadowSocks': ['TCP', '127.0.0.1:1'], 'OPENVPN': ['Udp', '[::1]:2'], 'sock': ['unix', '/tmp/x']}),
+         [(CB1, 3, 'shadowsocks'), (CB1, 3, 'ShadowSocks'), (CB1, 3, 'openvpn'), (CB1, 3, 'sock')]),
+        (mkcfg('book-empty', bypass=[CB1], book={}), [(CB1, 3, 'shadowsocks')]),
+        # malformed UID entries (outside wf_uids: the oracle judges only the exact 16-byte entries; the model must agree on all)
+        (mkcfg('short-after-full', bypass=[CB1, 'c3c3c3'], wf=False), std(CB1, 'c3c3c3' + 'b1' * 13, 'c3c3c3' + '00' * 13, ZERO)),
+        (mkcfg('short-first', bypass=['c3c3c3', CB1], wf=False), std('c3c3c3' + '00' * 13, CB1, ZERO)),
+        (mkcfg('long-entry', bypass=[CB1 + 'ffff'], wf=False), std(CB1, ZERO)),
+        (mkcfg('empty-entry-first', bypass=['', CB1], wf=False), std(ZERO, CB1)),
+        (mkcfg('empty-entry-after', bypass=[CB1, ''], wf=False), std(ZERO, CB1)),
+        (mkcfg('short-admin', admin='a1a1', bypass=[CB1], wf=False), std('a1a1' + 'b1' * 14, CB1, ZERO) + [('a1a1' + 'b1' * 14, 0, 'shadowsocks')]),
+        (mkcfg('long-admin', admin=CA + 'ee', wf=False), std(CA, ZERO) + [(CA, 0, 'shadowsocks')]),
+        # other derived values / error exits
+        (mkcfg('keepalive15', bypass=[CB1], keepalive=15, redir='10.1.2.3:8080', hosts=['10.1.2.3']), std(CB1)),
+        (mkcfg('keepalive-neg', bypass=[CB1], keepalive=-7, redir='[::1]:443', hosts=['::1', '[::1]']), std(CB1)),
+        (mkcfg('redir-v6-noport', bypass=[CB1], redir='fe80::1', hosts=['fe80::1']), std(CB1)),
+        (mkcfg('redir-empty', bypass=[CB1], redir='', hosts=['']), std(CB1)),
+        (mkcfg('redir-bad', bypass=[CB1], redir='999.1.1.1:80', hosts=['999.1.1.1']), []),
+        (mkcfg('redir-bracket-noport', bypass=[CB1], redir='[::1]', hosts=['::1]', '[::1]', '::1']), []),
+        (mkcfg('pk-empty', bypass=[CB1], pk=''), []),
+        (mkcfg('pk-short', bypass=[CB1], pk='5c' * 16), []),
+        (mkcfg('cnc', bypass=[CB1], cnc=True), []),
+        (mkcfg('book-pair1', bypass=[CB1], book={'x': ['tcp']}), []),
+        (mkcfg('book-pair3', bypass=[CB1], book={'x': ['tcp', '127.0.0.1:1', 'y']}), []),
+        (mkcfg('book-badaddr', bypass=[CB1], book={'x': ['tcp', '127.0.0.1']}), []),
+        (mkcfg('book-badaddr-skipped-net', bypass=[CB1], book={'x': ['unix', '127.0.0.1'], 'shadowsocks': ['tcp', '127.0.0.1:1']}), std(CB1)),
+    ]
+    return out
+
+
+def config_gen_specs(seed0):
+    specs = []
+    for ci, (cfg, probes) in enumerate(config_specs()):
+        for pi, (uid, sid, method) in enumerate(probes):
+            for kind, br in ((('tls', 'firefox'),) if pi % 3 else (('tls', 'firefox'), ('ws', 'chrome'))):
+                specs.append(dict(id='cfg_%s_%d_%s' % (cfg['name'], pi, kind), kind=kind, browser=br, uid=uid, sid=sid, method=method, enc=1,
+                                  unordered=False, ts=NOW_S, pv=(cfg['pk'] + '00' * 32)[:64], seed=seed0 * 1000 + 700 + ci * 20 + pi, cfgname=cfg['name']))
+    return specs
+
+
+def cfg_tokens(cfg):
+    e = lambda h: h if h else 'e'
+    book = ';'.join('%s:%s' % (e(n.encode().hex()), '.'.join(e(x.encode().hex()) for x in pair)) for n, pair in sorted(cfg['book'].items())) or '-'
+    ka = cfg['keepalive']
+    return 'cfg=1 rpk=%s radmin=%s rbypass=%s rbook=%s rredir=%s rdb=%d rka=%s rcnc=%d' % (
+        cfg['pk'] or '-', cfg['admin'] or '-', ','.join(e(b) for b in cfg['bypass']) or '-', book, cfg['redir'].encode().hex() or '-',
+        1 if cfg['db'] else 0, c9.zhex(ka), 1 if cfg['cnc'] else 0)
+
+
+def cfg_oracle_state(cfg):
+    """the server configuration as the PROPERTY reads it (independent of InitState and of the model): who is authorised without
+    the database = the configured 16-byte BypassUID entries and the configured 16-byte AdminUID; the database counts only when
+    an AdminUID and a DatabasePath are configured; methods are matched by their lower-cased configured names"""
+    book = [n.lower() for n, pair in cfg['book'].items() if len(pair) == 2 and pair[0].lower() in ('tcp', 'udp')]
+    return dict(state='cfg:' + cfg['name'], pv=(cfg['pk'] + '00' * 32)[:64], admin=cfg['admin'] if len(cfg['admin']) == 32 else '',
+                bypass=[b for b in cfg['bypass'] if len(b) == 32] + ([cfg['admin']] if len(cfg['admin']) == 32 else []),
+                book=book, users=cfg['users'] if (cfg['db'] and cfg['admin']) else [], nodb=not (cfg['db'] and cfg['admin']), used=[], active=[])
+
+
 def gen_packets(ctx):
-    specs = gen_specs(ctx.seed)
+    specs = gen_specs(ctx.seed) + config_gen_specs(ctx.seed)
     seals = forge_specs()
     rc, log, out, dt = c9.run_go(ctx, 'gen', [json.dumps(g) for g in specs + seals], 'gen', test='TestVerifC07',
-                                 files=('c07_test.go', 'c09_rig_test.go', 'c09_test.go'))
+                                 files=('c07_test.go', 'c07_init_test.go', 'c09_rig_test.go', 'c09_test.go'))
     packets = {g['id']: bytes.fromhex(out[g['id']]) for g in specs + seals if g['id'] in out}
     return rc, log, packets, {g['id']: g for g in specs + seals}
 
@@ -550,6 +684,10 @@ def reproduces_alone(ctx, c, what, judge, tag):
     return True
 
 
+def state_of(c):
+    return c['meta'].get('ostate') or STATES[c['st']]
+
+
 def correspondence(ctx, verdict, pr):
     res = dict(broken=[])
     rc, log, packets, specs = gen_packets(ctx)
@@ -570,7 +708,7 @@ def correspondence(ctx, verdict, pr):
             pre.append(c)
             ncorpus += 1
         cases = pre + cases
-    rc, log, parsed, mrc, merr, model, dt, nx = run_cases(ctx, cases, 'cases', x_sample=6 if ctx.quick() else 60)
+    rc, log, parsed, mrc, merr, model, dt, nx = run_cases(ctx, cases, 'cases', x_sample=4 if ctx.quick() else 60)
     if rc != 0:
         attributed = crash_attribution(ctx, verdict, cases, parsed, log)
         rest = [c for c in cases if parsed.get(c['id']) is None]
@@ -602,7 +740,7 @@ def correspondence(ctx, verdict, pr):
         distinct.add((c['pkt'], c['st'], c['now']))
         if o['disp'] in ('admin', 'proxy'):
             nacc += 1
-        msg = oracle(c, STATES[c['st']], o)
+        msg = oracle(c, state_of(c), o)
         if msg:
             fails.append((c, o, msg))
         if rc == 0 and mrc == 0:
@@ -622,7 +760,7 @@ def correspondence(ctx, verdict, pr):
             tried[sig] = tried.get(sig, 0) + 1
             if tried[sig] > 4:
                 continue
-            if not reproduces_alone(ctx, c, sig, lambda o1, ml1: (oracle(c, STATES[c['st']], o1) or (None,))[0], 'iso'):
+            if not reproduces_alone(ctx, c, sig, lambda o1, ml1: (oracle(c, state_of(c), o1) or (None,))[0], 'iso'):
                 nload += 1
                 ctx.notes.append('oracle verdict [%s] on case %s (%s on %s) not reproduced in isolation (load): %d runs alone did not all give it' % (
                     sig, c['id'], c['meta']['cat'], c['meta']['base'], c9.ISOLATION_TRIES))
@@ -631,7 +769,7 @@ def correspondence(ctx, verdict, pr):
         m = c['meta']
         verdict.oracle_failure(sig, 'C07 oracle [%s]: %s (case %s: %s on %s, state %s, server clock %d ns, client stamp %d s, changed bytes %s)' % (
             sig, msg, c['id'], m['cat'], m['base'], c['st'], c['now'], m['spec']['ts'], m['changed']),
-            dict(case=c, state=STATES[c['st']], implementation=o, model=model.get(c['id']),
+            dict(case=c, state=state_of(c), implementation=o, model=model.get(c['id']),
                  how='python3 tools/check.py C07 --replay <this file>'))
     if mism:
         n0 = len(mism)
@@ -711,7 +849,8 @@ def replay(ctx, verdict):
     if not c:
         print(json.dumps(r, indent=1)[:4000])
         return 0
-    STATES[c['st']] = r['state']
+    if not c.get('cfg'):
+        STATES[c['st']] = r['state']
     rc, log, parsed, mrc, merr, model, dt, nx = run_cases(ctx, [c], 'replay')
     o = parsed.get(c['id'])
     print('packet        :', c['pkt'][:200], '(%d bytes)' % (len(c['pkt']) // 2))
